@@ -4,7 +4,7 @@ import re
 from collections import defaultdict
 
 
-INDEX_RX = re.compile(r"as std::ops::Index(Mut)?<[^>]*>>::index(_mut)?$")
+INDEX_RX = re.compile(r"(as std::ops::Index(Mut)?<[^>]*>>|^core::slice::index::<impl std::ops::Index(Mut)?<I> for \[T\]>|^std::array::<impl std::ops::Index(Mut)?<I> for \[T; N\]>)::index(_mut)?$")
 
 
 DEREF_RX = re.compile(r"as std::ops::Deref(Mut)?>::deref(_mut)?$")
@@ -425,3 +425,75 @@ def natural_loops(B):
 
 def return_blocks(B):
     return {bi for bi, b in enumerate(B.blocks) if not b.get("cleanup") and b["term"]["k"] == "return"}
+
+
+# ---- MIR-level inlining of repository helpers (used by the panic audit to evaluate a site in its callers' context) -------
+def _remap(x, lo, bo, term=False):
+    """copy of the MIR JSON fragment x with locals shifted by lo and block numbers by bo"""
+    if isinstance(x, list):
+        return [_remap(y, lo, bo) for y in x]
+    if not isinstance(x, dict):
+        return x
+    if "l" in x and "p" in x and isinstance(x["p"], list):
+        return {"l": x["l"] + lo, "p": [({**p, "i": p["i"] + lo} if isinstance(p, dict) and "i" in p else p) for p in x["p"]]}
+    out = {}
+    for k, v in x.items():
+        if term and k in ("t", "otherwise", "unwind"):
+            out[k] = v + bo if isinstance(v, int) and not isinstance(v, bool) else v
+        elif term and k == "ts":
+            out[k] = [t + bo for t in v]
+        elif term and k == "vals":
+            out[k] = v
+        else:
+            out[k] = _remap(v, lo, bo)
+    return out
+
+
+def inline_calls(F, fn, eligible, depth=2, _stack=(), only_bb=None):
+    """fn-like dict whose MIR is fn's with every direct call of an eligible repository function replaced by the callee's
+    blocks (appended after the original blocks, which keep their numbers; callee locals appended after fn's).  Returns
+    (fn', where) with where[(call_bb, callee_path)] = block offset of that copy, so that callee block b is where + b."""
+    m = fn["mir"]
+    blocks = [dict(b) for b in m["blocks"]]
+    locals_ = list(m["locals"])
+    where = {}
+    work = [(bi, depth, _stack) for bi in range(len(blocks))]
+    while work:
+        bi, d, stack = work.pop(0)
+        b = blocks[bi]
+        t = b["term"]
+        if t["k"] != "call" or b.get("cleanup") or d <= 0:
+            continue
+        c = t.get("callee")
+        if c is None or c not in F.fns or c in stack or not F.fns[c].get("mir"):
+            continue
+        if only_bb is not None and bi < len(m["blocks"]) and bi not in only_bb:
+            continue
+        if not eligible(c):
+            continue
+        hm = F.fns[c]["mir"]
+        if len(t["args"]) != hm["arg_count"]:
+            continue
+        lo, bo = len(locals_), len(blocks)
+        where[(bi, c)] = bo
+        for l in hm["locals"]:
+            locals_.append(dict(l))
+        for hb in hm["blocks"]:
+            nb = {"cleanup": hb.get("cleanup"), "stmts": _remap(hb["stmts"], lo, bo), "term": _remap(hb["term"], lo, bo, term=True), "inl": c}
+            if nb["term"]["k"] == "return":
+                ret = {"k": "assign", "lhs": t["dest"], "rv": {"k": "use", "a": {"k": "move", "pl": {"l": lo, "p": []}}}, "line": t.get("line")}
+                nb["stmts"] = nb["stmts"] + [ret]
+                nb["term"] = {"k": "goto", "t": t["t"], "line": t.get("line")} if t.get("t") is not None else {"k": "unreachable", "line": t.get("line")}
+            blocks.append(nb)
+        pre = []
+        for i, a in enumerate(t["args"]):
+            pre.append({"k": "assign", "lhs": {"l": lo + 1 + i, "p": []}, "rv": {"k": "use", "a": a}, "line": t.get("line")})
+        nbk = dict(b)
+        nbk["stmts"] = b["stmts"] + pre
+        nbk["term"] = {"k": "goto", "t": bo, "line": t.get("line"), "inlined_call": c}
+        blocks[bi] = nbk
+        for j in range(bo, len(blocks)):
+            work.append((j, d - 1, stack + (c,)))
+    f2 = dict(fn)
+    f2["mir"] = {**m, "blocks": blocks, "locals": locals_}
+    return f2, where
